@@ -161,7 +161,7 @@ def ident_tokens(text):
     """NAME tokens (non-keyword) via the standard library tokenizer, or None."""
     try:
         toks = list(tokenize.generate_tokens(io.StringIO(text).readline))
-    except (tokenize.TokenError, SyntaxError, IndentationError, ValueError):
+    except Exception:   # any tokenizer failure (null bytes even raise SystemError): no ground truth
         return None
     return [(t.start[0], t.start[1], t.string) for t in toks
             if t.type == tokenize.NAME]
